@@ -5,10 +5,12 @@ The proxy is made the closer of a client connection after having produced output
   error     - proxy-generated error pages (400 / 404 / 502 refused upstream / 501-less unknown scheme)
   reject    - a plugin rejecting the request with a large body (HttpRequestRejected)
   webclose  - a web route queuing many pieces and then ending the connection
+  webkeep   - a keep-alive web route reply; the client half-closes while the reply is still queued
   upclose   - forward proxy: origin sends a response (close-delimited or Content-Length) and closes
   tunclose  - CONNECT tunnel: origin sends bytes and closes
-under short-write / EAGAIN outcomes on the client socket, small send sizes, and client read paces from
-eager to a trickle through a 4 KiB window.  Boundary oracle: what the client read up to end-of-stream is
+under short-write / EAGAIN outcomes on the client socket, small send sizes, client read paces from eager to
+a trickle through a 4 KiB window, and clients that half-close (shutdown of their sending side) right after the
+request or once the reply has started.  Boundary oracle: what the client read up to end-of-stream is
 exactly what was produced (the origin's bytes / a complete response whose decoded body equals the file or
 the plugin's body), then EOF follows within K loop iterations after the last byte was read.
 Both the single-stepped threadless executor and the thread-per-connection handler are driven.
@@ -84,6 +86,17 @@ class PiecesRoute(HttpWebServerBasePlugin):
         raise HttpProtocolException('reply queued, closing')
 
 
+class KeepRoute(HttpWebServerBasePlugin):
+    """A keep-alive reply (no teardown requested by the route): the connection ends when the client half-closes."""
+
+    def routes(self) -> List[Tuple[int, str]]:
+        return [(httpProtocolTypes.HTTP, r'/keep')]
+
+    def handle_request(self, request: HttpParser) -> None:
+        for p in _state['web_pieces']:
+            self.client.queue(memoryview(p))
+
+
 _root: Dict[str, str] = {}
 
 
@@ -107,8 +120,8 @@ def flags_for(kind: str, sendbuf: str, threaded: bool) -> Any:
     if kind == 'static-nogz':
         return make_flags(['--enable-static-server', '--static-server-dir', _root['dir'], '--min-compression-length', '999999999'] + extra,
                           cache_key=key + _root['dir'], threaded=threaded)
-    if kind == 'webclose':
-        return make_flags(['--enable-web-server'] + extra, plugins=[PiecesRoute], cache_key=key, threaded=threaded)
+    if kind in ('webclose', 'webkeep'):
+        return make_flags(['--enable-web-server'] + extra, plugins=[PiecesRoute, KeepRoute], cache_key=key.replace('webkeep', 'webclose'), threaded=threaded)
     if kind == 'reject':
         return make_flags(extra, plugins=[Rejecter], cache_key=key, threaded=threaded)
     return make_flags(extra, cache_key=key, threaded=threaded)
@@ -119,7 +132,7 @@ def run_case(case: Dict[str, Any]) -> Dict[str, Any]:
     kind, size, threaded = case['kind'], case['size'], case['rig'] == 'thread'
     shim.S.reset()
     shim.S.rng = random.Random('shim07:%s:%s' % (case['seed'], case['i']))
-    fkind = kind if kind in ('static', 'static-nogz', 'webclose', 'reject') else 'proxy'
+    fkind = kind if kind in ('static', 'static-nogz', 'webclose', 'webkeep', 'reject') else 'proxy'
     flags = flags_for(fkind, case['sendbuf'], threaded)
     viol: List[Dict[str, Any]] = []
     obs: Dict[str, int] = {}
@@ -144,12 +157,12 @@ def run_case(case: Dict[str, Any]) -> Dict[str, Any]:
                 f.write(content)
             request = b'GET /%s HTTP/1.1\r\nHost: s.test\r\n\r\n' % name.encode()
             expect_body = content
-        elif kind == 'webclose':
+        elif kind in ('webclose', 'webkeep'):
             body = G.coded(b'W', size)
-            head = b'HTTP/1.1 200 OK\r\nContent-Length: %d\r\nConnection: close\r\n\r\n' % len(body)
+            head = b'HTTP/1.1 200 OK\r\nContent-Length: %d\r\n%s\r\n' % (len(body), b'Connection: close\r\n' if kind == 'webclose' else b'')
             raw = head + body
             _state['web_pieces'] = G.cut_at(raw, G.random_cuts(rng, len(raw), case['pieces']))
-            request = b'GET /pieces HTTP/1.1\r\nHost: s.test\r\n\r\n'
+            request = b'GET /%s HTTP/1.1\r\nHost: s.test\r\n\r\n' % (b'pieces' if kind == 'webclose' else b'keep')
             produced = raw
         elif kind == 'reject':
             _state['reject_body'] = G.coded(b'R', size)
@@ -194,6 +207,9 @@ def run_case(case: Dict[str, Any]) -> Dict[str, Any]:
         shim.S.short_write_p = case['short_p']
         shim.S.eagain_p = case['eagain_p']
         client.send(request)
+        halfclose = case.get('halfclose') if origin is None else None
+        if halfclose == 'at-once':
+            client.shutdown_wr()        # "I have nothing more to send": the reply is still owed in full
 
         # ---- upstream part ----
         up_stream = b''
@@ -224,7 +240,12 @@ def run_case(case: Dict[str, Any]) -> Dict[str, Any]:
         pace = case['pace']
         got_all_at: Optional[int] = None
 
+        hc = {'done': halfclose != 'mid'}
+
         def client_read() -> None:
+            if not hc['done'] and len(client.rx) > 0:
+                client.shutdown_wr()    # half-close once the first bytes of the reply have been read
+                hc['done'] = True
             if pace == 'eager':
                 client.pump()
             elif pace == 'slow':
@@ -325,6 +346,9 @@ def run_case(case: Dict[str, Any]) -> Dict[str, Any]:
                 if got_all_at is None:
                     client_read()
                 else:
+                    if not hc['done']:
+                        client.shutdown_wr()
+                        hc['done'] = True
                     client.pump()       # everything produced has been read: now only the end-of-stream is awaited, eagerly,
                     #                     so that the count below measures the proxy's close and not the client's read pace
                 if got_all_at is None and produced is not None and len(client.rx) >= len(produced):
@@ -396,7 +420,7 @@ def run_case(case: Dict[str, Any]) -> Dict[str, Any]:
         else:
             rig.close()
     flushes = _flush_calls['n']
-    obs.update({'kind:' + kind: 1, 'rig:' + case['rig']: 1, 'flush_calls': flushes, 'flush>=10': 1 if flushes >= 10 else 0,
+    obs.update({'kind:' + kind: 1, 'rig:' + case['rig']: 1, 'client_half_close_cases': 1 if case.get('halfclose') else 0, 'flush_calls': flushes, 'flush>=10': 1 if flushes >= 10 else 0,
                 'saw_flush_before_shutdown_state': 1 if saw_flush_state else 0,
                 'shim:short': counts.get('send:short', 0), 'shim:eagain': counts.get('send:eagain-injected', 0) + counts.get('send:eagain-real', 0),
                 'bytes_delivered': len(client.rx) if 'client' in dir() else 0,
@@ -424,8 +448,8 @@ SIZES_T = SIZES_Q + [(1 << 21) + 1, 5 << 20]
 
 def cases(tier: str, seed: int):
     rng = random.Random('c07cases:%d' % seed)
-    n = 900 if tier == 'quick' else 14000
-    kinds = ['static', 'static-nogz', 'webclose', 'reject', 'error', 'upclose', 'upclose', 'tunclose']
+    n = 700 if tier == 'quick' else 14000
+    kinds = ['static', 'static-nogz', 'webclose', 'webkeep', 'reject', 'error', 'upclose', 'upclose', 'tunclose']
     for i in range(n):
         kind = kinds[i % len(kinds)]
         rigk = 'thread' if (i // len(kinds)) % 4 == 3 else 'step'
@@ -445,6 +469,10 @@ def cases(tier: str, seed: int):
              'rcvbuf': rng.choice([None, 4096]), 'sndbuf': rng.choice([None, 4096]),
              'close_timing': rng.choice(['before-client-reads', 'interleaved', 'interleaved']),
              'framing': rng.choice(['cl', 'close']), 'mode': rng.choice(['local', 'local', 'remote'])}
+        if kind in ('static', 'static-nogz', 'webclose', 'reject') and rng.random() < 0.35:
+            c['halfclose'] = rng.choice(['at-once', 'mid'])
+        if kind == 'webkeep':
+            c['halfclose'] = rng.choice(['at-once', 'mid', 'mid'])      # this connection only ends because the client half-closes
         if kind == 'error':
             c['error'] = rng.choice(['400', '404', '502', 'scheme'])
             c['extra_input'] = rng.choice([0, 0, 5, 5000])
@@ -459,9 +487,9 @@ def cases(tier: str, seed: int):
 
 
 def floors(tier: str) -> Dict[str, int]:
-    fl = {'saw_flush_before_shutdown_state': 100, 'flush>=10': 50, 'rig:thread': 100, 'rig:step': 300, 'shim:short': 200,
+    fl = {'client_half_close_cases': 40, 'saw_flush_before_shutdown_state': 100, 'flush>=10': 50, 'rig:thread': 100, 'rig:step': 300, 'shim:short': 200,
           'shim:eagain': 100, 'distinct:handler_states': 4}
-    for k in ('static', 'static-nogz', 'webclose', 'reject', 'error', 'upclose', 'tunclose'):
+    for k in ('static', 'static-nogz', 'webclose', 'webkeep', 'reject', 'error', 'upclose', 'tunclose'):
         fl['kind:' + k] = 30
     return fl
 
